@@ -113,6 +113,10 @@ func argVars(last bool, appendMsg bool) []ArgVar {
 		vs = append(vs, ArgVar{Enc: "lit", Sync: sync, Size: 1 << 32, Class: "cmdlike", Anomaly: "short"})
 		vs = append(vs, ArgVar{Enc: "lit", Sync: sync, Size: 1<<32 + 1, Class: "cmdlike", Anomaly: "short"})
 		vs = append(vs, ArgVar{Enc: "lit", Sync: sync, Size: 1<<33 + 4096, Class: "cmdlike", Anomaly: "short"})
+		// the largest sizes the grammar's number64 can carry: anything sized from the announcement
+		// before it is vetted overflows or exhausts memory
+		vs = append(vs, ArgVar{Enc: "lit", Sync: sync, Size: 1 << 62, Class: "cmdlike", Anomaly: "short"})
+		vs = append(vs, ArgVar{Enc: "lit", Sync: sync, Size: 1<<63 - 1, Class: "cmdlike", Anomaly: "short"})
 		if last {
 			// actual > announced: junk between the literal and the end of the line
 			vs = append(vs, ArgVar{Enc: "lit", Sync: sync, Size: 1, Class: "plain", Anomaly: "junk"})
